@@ -149,6 +149,9 @@ def run(sx, n, preserve, mode, flipped, sections=1, lengths="distinct"):
                 kw["end_size"] = sx.real(f"size{si}", hi / 4, hi)
             else:
                 kw["start_size"] = sx.real(f"size{si}", hi / 4, hi)
+        elif mode == "total":
+            # count & total expansion given, a size preserved: the size follows from the chop on the average edge length
+            kw["total_expansion"] = sx.real(f"T{si}", Fraction(1, 3), 3)
         else:
             kw["c2c_expansion"] = sx.real(f"c{si}", Fraction(1, 2), 2)
         kws.append(kw)
@@ -194,6 +197,16 @@ def run(sx, n, preserve, mode, flipped, sections=1, lengths="distinct"):
                 conds.append(sx.close(got, want, 1e-7))
         sx.prove(sx.all(conds), f"{tag}: the preserved {preserve} is realised on the four edges of the chopped block and of the "
                  "block it propagates to, at the same geometric end", f"C04:preserve:{_cls(preserve, flipped, sections)}")
+    if preserve in ("start_size", "end_size") and sections == 1 and mode == "total":
+        got = []
+        for blk, pts in ((bA, A), (bB, B)):
+            for (i, j) in XE:
+                w, _ = _wire_between(blk, pts[i], pts[j], sx)
+                cells = cell_sizes(sx, pts[j][0] - pts[i][0], _oriented(w, pts[i]))
+                got.append(cells[0] if preserve == "start_size" else cells[-1])
+        sx.prove(sx.all([sx.close(g, got[0], 1e-7) for g in got[1:]]), f"{tag}: with count & total expansion given and "
+                 f"{preserve} preserved, all eight x edges get the same {preserve} (the one resolved on the chopped block's "
+                 "average edge)", f"C04:preserve:total:{_cls(preserve, flipped, sections)}")
     # ---- (c) simpleGrading only if the four gradings are equal
     for name, blk, pts in (("chopped", bA, A), ("propagated", bB, B)):
         text = blk.format_grading()
@@ -242,6 +255,12 @@ def jobs(tier, seed):
                     js.append({"name": f"n={n}|{preserve}|{mode}|flipped={flipped}", "fn": "run",
                                "params": {"n": n, "preserve": preserve, "mode": mode, "flipped": flipped}})
     for flipped in (False, True):
+        for preserve in ("start_size", "end_size"):
+            # (ground twin only: with symbolic edge lengths AND a symbolic total expansion the solver does not decide the
+            #  bracket comparisons of the size relations within minutes)
+            js.append({"name": f"n=2|{preserve}|total|flipped={flipped}|ground twin only", "fn": "run", "symbolic": False,
+                       "params": {"n": 2, "preserve": preserve, "mode": "total", "flipped": flipped}})
+    for flipped in (False, True):
         js.append({"name": f"two-sections|n=2|c2c|flipped={flipped}", "fn": "run",
                    "params": {"n": 2, "preserve": "c2c_expansion", "mode": "c2c", "flipped": flipped, "sections": 2}})
         if tier == "thorough":
@@ -253,6 +272,8 @@ def jobs(tier, seed):
             if lengths != "distinct" and (j["params"].get("sections", 1) == 2 or j["params"]["n"] == 3) and tier == "quick":
                 continue
             jj = {"name": j["name"] + f"|lengths={lengths}", "fn": "run", "params": dict(j["params"], lengths=lengths)}
+            if j.get("symbolic") is False:
+                jj["symbolic"] = False
             out.append(jj)
     js = out
     for j in js:
